@@ -1,9 +1,463 @@
 /-
-  QEModel.C12 — executable model for property C12 (stub; to be filled in).
--/
-import QEModel.Base
-namespace QE.C12
+  QEModel.C12 — Kalman filter (quantecon/_kalman.py) and linear state space
+  moments / simulation (quantecon/_lss.py).
 
-def handle (_toks : List String) : String := "bad-op"
+  Mirrors
+  * `Kalman.prior_to_filtered` (lines 181-212): `priorToFiltered`
+    (`E = Σ G'`, `F = (G Σ) G' + H H'`, `M = E inv(F)`, `x̂ + M (y − G x̂)`,
+    `Σ − M (G Σ)`); `Kalman.filtered_to_forecast` (214-227): `filteredToForecast`
+    (`A x̂`, `A (Σ A') + C C'`); `Kalman.update` (229-242): `update`; a whole
+    observation record: `kalmanRun` / `kalmanTrace` (state machine);
+    `Kalman.stationary_values` (243-278) after the Riccati solve:
+    `stationaryGain` (`K = (A Σ∞) G' inv(G (Σ∞ G') + R)`); Σ∞ itself is an input
+    (the Riccati solver is property C06's subject).
+  * `simulate_linear_model` (`_lss.py` 14-59): `simCol` is the body of the
+    `for i … for j` double loop with the code's accumulation order
+    (`x[i,t+1] = v[i,t]; x[i,t+1] += A[i,j] x[j,t]`), `simCols` the `for t` loop,
+    `simulateLinear` the returned `n × ts_length` array.
+  * `LinearStateSpace.simulate` (155-196) / `replicate` (198-238) for the draws
+    actually made (`x0`, `w`, `v` are inputs): `simulate`, `replicate`.
+  * `moment_sequence` (240-282): `momentState` / `momentOut` / `momentSeq`.
+  * `stationary_distributions` (280-336, after fix f83dcdb: `μ = solve(I − A22, A21 @ mu_0[const])`)
+    with `__partition` (410-467):
+    `isConstRow` (the three tests), `sortedIdx` (`insert(0, idx)` / `append`),
+    `permMat`, `partition`, `stationaryDist`. `scipy.linalg.solve` and the
+    Bartels–Stewart Lyapunov solver are parameters `sol`, `lyap`.
+  * `geometric_sums` (338-370): `geometricSums`; `impulse_response` (372-408):
+    `impulseState` / `impulseResponse`.
+  `scipy.linalg.inv` / `solve` are parameters; the driver instantiates them with
+  the exact Gauss–Jordan of `MatAlg`, the Lyapunov parameter with the exact
+  solution of the vectorised equation (`lyapExact`).
+  `np.linalg.norm(row) == 1` is modelled as `Σ_j row_j² == 1` (equivalent in
+  exact arithmetic).
+-/
+import QEModel.MatAlg
+namespace QE.C12
+open QE QE.MatAlg
+
+section generic
+variable {α : Type} [Zero α] [One α] [Add α] [Sub α] [Mul α] [Div α] [Neg α] [BEq α]
+
+/-! ### Kalman filter -/
+
+/-- the pair `(x_hat, Sigma)` held by a `Kalman` instance -/
+structure KState (α : Type) where
+  xhat : M α
+  sigma : M α
+
+/-- `prior_to_filtered(y)`, lines 201-212. `none` = `inv` raised (LinAlgError). -/
+def priorToFiltered (inv : M α → Option (M α)) (G H : M α) (s : KState α) (y : M α) :
+    Option (KState α) :=
+  let R := mmul H (mT H)
+  let E := mmul s.sigma (mT G)
+  let F := madd (mmul (mmul G s.sigma) (mT G)) R
+  match inv F with
+  | none => none
+  | some Fi =>
+    let Mg := mmul E Fi
+    some ⟨madd s.xhat (mmul Mg (msub y (mmul G s.xhat))),
+          msub s.sigma (mmul Mg (mmul G s.sigma))⟩
+
+/-- `filtered_to_forecast()`, lines 221-227 -/
+def filteredToForecast (A C : M α) (s : KState α) : KState α :=
+  ⟨mmul A s.xhat, madd (mmul A (mmul s.sigma (mT A))) (mmul C (mT C))⟩
+
+/-- `update(y)`, lines 241-242 -/
+def update (inv : M α → Option (M α)) (A C G H : M α) (s : KState α) (y : M α) :
+    Option (KState α) :=
+  (priorToFiltered inv G H s y).map (filteredToForecast A C)
+
+/-- `update` along a whole observation record -/
+def kalmanRun (inv : M α → Option (M α)) (A C G H : M α) : KState α → List (M α) → Option (KState α)
+  | s, [] => some s
+  | s, y :: ys =>
+    match update inv A C G H s y with
+    | none => none
+    | some s1 => kalmanRun inv A C G H s1 ys
+
+/-- the states after each observation (for the driver); stops at the first failure -/
+def kalmanTrace (inv : M α → Option (M α)) (A C G H : M α) :
+    KState α → List (M α) → List (KState α) × Bool
+  | _, [] => ([], true)
+  | s, y :: ys =>
+    match update inv A C G H s y with
+    | none => ([], false)
+    | some s1 =>
+      let r := kalmanTrace inv A C G H s1 ys
+      (s1 :: r.1, r.2)
+
+/-- lines 271-273: `K∞ = (A Σ∞) G' inv(G (Σ∞ G') + R)` -/
+def stationaryGain (inv : M α → Option (M α)) (A G H Sig : M α) : Option (M α) :=
+  let R := mmul H (mT H)
+  let temp1 := mmul (mmul A Sig) (mT G)
+  match inv (madd (mmul G (mmul Sig (mT G))) R) with
+  | none => none
+  | some temp2 => some (mmul temp1 temp2)
+
+/-- `stationary_innovation_covar`: `G (Σ∞ G') + R` -/
+def innovationCovar (G H Sig : M α) : M α :=
+  madd (mmul G (mmul Sig (mT G))) (mmul H (mT H))
+
+/-! ### the jitted simulation kernel -/
+
+/-- one pass of the `for i` loop: column `t+1` from column `t` (`x`, `n × 1`) and
+    the shock column `v[:, t]`; accumulation in the code's order -/
+def simCol (A x v : M α) (t : Nat) : M α :=
+  M.tab A.nr 1 fun i _ =>
+    (List.range A.nr).foldl (fun acc j => acc + A.get i j * x.get j 0) (v.get i t)
+
+/-- column `t` of the simulated path -/
+def simCols (A x0 v : M α) : Nat → M α
+  | 0 => x0
+  | t + 1 => simCol A (simCols A x0 v t) v t
+
+/-- `simulate_linear_model(A, x0, v, ts_length)`, `ts_length ≥ 1`: the `n × ts` array whose
+    column `t` is `simCols … t` -/
+def simulateLinear (A x0 v : M α) (ts : Nat) : M α :=
+  M.tab A.nr ts fun i t => (simCols A x0 v t).get i 0
+
+/-- `simulate(ts_length)` on the draws `x0` (`n × 1`), `w` (`m × (ts-1)`),
+    `v2` (`l × ts`, read only when `H` is present) -/
+def simulate (A C G : M α) (H : Option (M α)) (x0 w v2 : M α) (ts : Nat) : M α × M α :=
+  let v := mmul C w
+  let x := simulateLinear A x0 v ts
+  let y := match H with
+    | some H => madd (mmul G x) (mmul H v2)
+    | none => mmul G x
+  (x, y)
+
+/-- `replicate(T, num_reps)`: `draws` are the `(x0, w)` of the successive
+    `simulate(ts_length=T+1)` calls, `v2` the final `l × num_reps` draw -/
+def replicate (A C G : M α) (H : Option (M α)) (draws : List (M α × M α)) (v2 : M α) (T : Nat) :
+    M α × M α :=
+  let cols := draws.map fun d => simCols A d.1 (mmul C d.2) T
+  let x := M.tab A.nr draws.length fun i j => (cols.getD j (zero 0 0)).get i 0
+  let y := match H with
+    | some H => madd (mmul G x) (mmul H v2)
+    | none => mmul G x
+  (x, y)
+
+/-! ### moment sequence -/
+
+/-- `(mu_x, Sigma_x)` after `t` passes of lines 280-282 -/
+def momentState (A C mu0 Sig0 : M α) : Nat → M α × M α
+  | 0 => (mu0, Sig0)
+  | t + 1 =>
+    let s := momentState A C mu0 Sig0 t
+    (mmul A s.1, madd (mmul (mmul A s.2) (mT A)) (mmul C (mT C)))
+
+structure Mom (α : Type) where
+  mux : M α
+  muy : M α
+  sigx : M α
+  sigy : M α
+
+/-- lines 272-278: the tuple yielded for the current `(mu_x, Sigma_x)` -/
+def momentOut (G : M α) (H : Option (M α)) (s : M α × M α) : Mom α :=
+  let gsg := mmul (mmul G s.2) (mT G)
+  ⟨s.1, mmul G s.1, s.2, match H with
+    | some H => madd gsg (mmul H (mT H))
+    | none => gsg⟩
+
+/-- the first `k` tuples of the generator -/
+def momentSeq (A C G : M α) (H : Option (M α)) (mu0 Sig0 : M α) (k : Nat) : List (Mom α) :=
+  (List.range k).map fun t => momentOut G H (momentState A C mu0 Sig0 t)
+
+/-! ### impulse response, geometric sums -/
+
+/-- `(Apower, xcoef, ycoef)` after `i` passes of the loop of lines 403-406 -/
+def impulseState (A C G : M α) : Nat → M α × List (M α) × List (M α)
+  | 0 => (A, [C], [mmul G C])
+  | i + 1 =>
+    let st := impulseState A C G i
+    (mmul st.1 A, st.2.1 ++ [mmul st.1 C], st.2.2 ++ [mmul G (mmul st.1 C)])
+
+def impulseResponse (A C G : M α) (j : Nat) : List (M α) × List (M α) :=
+  (impulseState A C G j).2
+
+/-- lines 367-369 (`S_x = solve(I − βA, x_t)`, `S_y = G S_x`); `none` = `solve` raised -/
+def geometricSums (sol : M α → M α → Option (M α)) (A G : M α) (beta : α) (x : M α) :
+    Option (M α × M α) :=
+  (sol (msub (ident A.nr) (smul beta A)) x).map fun S => (S, mmul G S)
+
+/-! ### stationary distributions with the constant-state partition -/
+
+/-- lines 447-448: the three tests that make state `idx` "constant" -/
+def isConstRow (A C : M α) (idx : Nat) : Bool :=
+  (A.get idx idx == 1) && (List.range C.nc).all (fun j => C.get idx j == 0) &&
+    (sumRange A.nc (fun j => A.get idx j * A.get idx j) == 1)
+
+/-- lines 443-454: `(sorted_idx, num_const)` -/
+def sortedIdx (A C : M α) : List Nat × Nat :=
+  (List.range A.nr).foldl (fun (acc : List Nat × Nat) idx =>
+    if isConstRow A C idx then (idx :: acc.1, acc.2 + 1) else (acc.1 ++ [idx], acc.2)) ([], 0)
+
+/-- lines 456-457: `P[range(n), sorted_idx] = 1` -/
+def permMat (n : Nat) (idx : List Nat) : M α :=
+  M.tab n n fun i j => if idx.getD i n = j then 1 else 0
+
+/-- rows `r0 …`, columns `c0 …` of `X` (NumPy slices `X[r0:, c0:c1]`) -/
+def block (X : M α) (r0 nr c0 nc : Nat) : M α :=
+  M.tab nr nc fun i j => X.get (r0 + i) (c0 + j)
+
+structure Part (α : Type) where
+  numConst : Nat
+  idx : List Nat
+  P : M α
+  A21 : M α
+  A22 : M α
+  C2 : M α
+
+/-- `__partition`, lines 437-467 -/
+def partition (A C : M α) : Part α :=
+  let n := A.nr
+  let si := sortedIdx A C
+  let nc := si.2
+  let P : M α := permMat n si.1
+  let sA := mmul (mmul P A) (mT P)
+  let sC := mmul P C
+  ⟨nc, si.1, P, block sA nc (n - nc) 0 nc, block sA nc (n - nc) nc (n - nc), block sC nc (n - nc) 0 C.nc⟩
+
+inductive StatOut (α : Type) where
+  | ok (mux muy sigx sigy sigyx : M α)
+  /-- `solve` / the Lyapunov solver raised -/
+  | linalg
+
+/-- `stationary_distributions`, lines 302-336 -/
+def stationaryDist (sol lyap : M α → M α → Option (M α)) (A C G : M α) (H : Option (M α))
+    (mu0 : M α) : StatOut α :=
+  let n := A.nr
+  let p := partition A C
+  let nc := p.numConst
+  let CC2 := mmul p.C2 (mT p.C2)
+  -- line 311: `A21 @ mu_0[sorted_idx[:num_const]]` (the constant states keep their initial values)
+  let muc : M α := M.tab nc 1 fun i _ => mu0.get (p.idx.getD i n) 0
+  let rhs : M α := if nc > 0 then mmul p.A21 muc else zero n 1
+  match sol (msub (ident (n - nc)) p.A22) rhs with
+  | none => .linalg
+  | some mu =>
+    match lyap p.A22 CC2 with
+    | none => .linalg
+    | some Sg =>
+      let mux0 : M α := M.tab n 1 fun i _ =>
+        if i < nc then mu0.get (p.idx.getD i n) 0 else mu.get (i - nc) 0
+      let sig0 : M α := M.tab n n fun i j =>
+        if nc ≤ i ∧ nc ≤ j then Sg.get (i - nc) (j - nc) else 0
+      let mux := mmul (mT p.P) mux0
+      let sigx := mmul (mmul (mT p.P) sig0) p.P
+      let muy := mmul G mux
+      let gsg := mmul (mmul G sigx) (mT G)
+      let sigy := match H with
+        | some H => madd gsg (mmul H (mT H))
+        | none => gsg
+      .ok mux muy sigx sigy (mmul G sigx)
+
+/-- exact solution of `X = A X A' + B` through the vectorised system
+    `(I − A ⊗ A) vec X = vec B` (stands for the Bartels–Stewart call) -/
+def lyapExact (A B : M α) : Option (M α) :=
+  let n := A.nr
+  let N := n * n
+  let K : M α := M.tab N N fun p q =>
+    (if p = q then (1 : α) else 0) - A.get (p / n) (q / n) * A.get (p % n) (q % n)
+  let b : M α := M.tab N 1 fun p _ => B.get (p / n) (p % n)
+  (solve K b).map fun X => M.tab n n fun i j => X.get (i * n + j) 0
+
+end generic
+
+/-! ### driver -/
+
+local instance : Zero Float := ⟨0.0⟩
+local instance : One Float := ⟨1.0⟩
+
+def matOf {β : Type} (rs : List (List β)) : M β := M.ofRows rs
+
+/-- all rows have the same positive length -/
+def rect {β : Type} (rs : List (List β)) : Bool :=
+  !rs.isEmpty && rs.all (fun r => r.length == (rs.headD []).length) && (rs.headD []).length > 0
+
+def dims {β : Type} (rs : List (List β)) (n m : Nat) : Bool :=
+  rs.length == n && rs.all (fun r => r.length == m)
+
+def ncols {β : Type} (rs : List (List β)) : Nat := (rs.headD []).length
+
+/-- floor(q·2^96)/2^96, printed as `p/q` -/
+def showApprox (q : Rat) : String :=
+  let s : Nat := 2 ^ 96
+  let z : Int := (q.num * (s : Int)) / (q.den : Int)
+  showRat ((z : Rat) / (s : Rat))
+
+def showA (X : M Rat) : String := showMat showApprox X.toRows
+def showE (X : M Rat) : String := showMat showRat X.toRows
+def showF (X : M Float) : String := showMat showFloatBits X.toRows
+
+/-- column vector from a list -/
+def colOf {β : Type} (v : List β) : M β := M.ofRows (v.map fun e => [e])
+
+def showStates (ss : List (KState Rat)) : String :=
+  " ".intercalate (ss.zipIdx.map fun (s, t) => s!"x{t}={showA s.xhat} S{t}={showA s.sigma}")
+
+def showMats (pre : String) (f : M Rat → String) (l : List (M Rat)) : String :=
+  " ".intercalate (l.zipIdx.map fun (X, t) => s!"{pre}{t}={f X}")
+
+/-- optional `H`: key absent or `H=none` means `None` -/
+def optH (r : List String) : Option (Option (List (List Rat))) :=
+  match kv r "H" with
+  | none => some none
+  | some "none" => some none
+  | some _ => (kvRatMat r "H").map some
+
+/-- shapes of a state space model `A n×n, C n×m, G k×n, H k×l` -/
+def ssOk (A C G : List (List Rat)) (H : Option (List (List Rat))) : Bool :=
+  let n := A.length
+  rect A && dims A n n && rect C && C.length == n && rect G && ncols G == n &&
+    (match H with | none => true | some H => rect H && H.length == G.length)
+
+/-- split a flat list into rows of length `m` -/
+def chunk {β : Type} (m : Nat) : Nat → List β → List (List β)
+  | 0, _ => []
+  | r + 1, l => l.take m :: chunk m r (l.drop m)
+
+def handle (toks : List String) : String :=
+  match toks with
+  | "kalman" :: r =>
+    -- mode=update: the whole record through update(); mode=p2f / f2f: one call of the half step
+    match kvRatMat r "A", kvRatMat r "C", kvRatMat r "G", kvRatMat r "H", kvRats r "x", kvRatMat r "S",
+          kvRatMat r "ys", kv r "mode" with
+    | some A, some C, some G, some H, some x, some S, some ys, some mode =>
+      let n := A.length
+      let k := G.length
+      if ssOk A C G (some H) && x.length == n && dims S n n && ys.all (fun y => y.length == k) then
+        let s0 : KState Rat := ⟨colOf x, matOf S⟩
+        if mode == "update" then
+          let tr := kalmanTrace inv (matOf A) (matOf C) (matOf G) (matOf H) s0 (ys.map colOf)
+          if tr.2 then s!"ok {showStates tr.1}"
+          else s!"ERR:LinAlgError step={tr.1.length} {showStates tr.1}"
+        else if mode == "p2f" then
+          match ys with
+          | [y] =>
+            match priorToFiltered inv (matOf G) (matOf H) s0 (colOf y) with
+            | some s => s!"ok {showStates [s]}"
+            | none => "ERR:LinAlgError step=0 "
+          | _ => "bad-op"
+        else if mode == "f2f" then
+          s!"ok {showStates [filteredToForecast (matOf A) (matOf C) s0]}"
+        else "bad-op"
+      else "bad-op"
+    | _, _, _, _, _, _, _, _ => "bad-op"
+  | "statgain" :: r =>
+    match kvRatMat r "A", kvRatMat r "G", kvRatMat r "H", kvRatMat r "S" with
+    | some A, some G, some H, some S =>
+      let n := A.length
+      if rect A && dims A n n && rect G && ncols G == n && rect H && H.length == G.length && dims S n n then
+        match stationaryGain inv (matOf A) (matOf G) (matOf H) (matOf S) with
+        | some K => s!"ok K={showA K} V={showA (innovationCovar (matOf G) (matOf H) (matOf S))}"
+        | none => "ERR:LinAlgError"
+      else "bad-op"
+    | _, _, _, _ => "bad-op"
+  | "simk" :: r =>
+    match kvRatMat r "A", kvRats r "x0", kv r "v", kvNat r "ts" with
+    | some A, some x0, some _, some ts =>
+      let n := A.length
+      match (if ts ≤ 1 then some (List.replicate n []) else kvRatMat r "v") with
+      | some v =>
+        if rect A && dims A n n && x0.length == n && dims v n (ts - 1) && ts ≥ 1 then
+          s!"ok x={showE (simulateLinear (matOf A) (colOf x0) (M.mk n (ts - 1) (v.map List.toArray).toArray) ts)}"
+        else "bad-op"
+      | none => "bad-op"
+    | _, _, _, _ => "bad-op"
+  | "simkf" :: r =>
+    match kvFloatMat r "A", kvFloats r "x0", kv r "v", kvNat r "ts" with
+    | some A, some x0, some _, some ts =>
+      let n := A.length
+      match (if ts ≤ 1 then some (List.replicate n []) else kvFloatMat r "v") with
+      | some v =>
+        if rect A && dims A n n && x0.length == n && dims v n (ts - 1) && ts ≥ 1 then
+          s!"ok x={showF (simulateLinear (matOf A) (colOf x0) (M.mk n (ts - 1) (v.map List.toArray).toArray) ts)}"
+        else "bad-op"
+      | none => "bad-op"
+    | _, _, _, _ => "bad-op"
+  | "simulate" :: r =>
+    match kvRatMat r "A", kvRatMat r "C", kvRatMat r "G", optH r, kvRats r "x0", kvRats r "w",
+          kvRats r "v2", kvNat r "ts" with
+    | some A, some C, some G, some H, some x0, some w, some v2, some ts =>
+      let n := A.length
+      let m := ncols C
+      let l := match H with | some H => ncols H | none => 0
+      if ssOk A C G H && x0.length == n && ts ≥ 1 && w.length == m * (ts - 1) && v2.length == l * ts then
+        let W : M Rat := M.mk m (ts - 1) ((chunk (ts - 1) m w).map List.toArray).toArray
+        let V2 : M Rat := M.mk l ts ((chunk ts l v2).map List.toArray).toArray
+        let o := simulate (matOf A) (matOf C) (matOf G) (H.map matOf) (colOf x0) W V2 ts
+        s!"ok x={showE o.1} y={showE o.2}"
+      else "bad-op"
+    | _, _, _, _, _, _, _, _ => "bad-op"
+  | "replicate" :: r =>
+    match kvRatMat r "A", kvRatMat r "C", kvRatMat r "G", optH r, kvRatMat r "x0s", kv r "ws",
+          kvRats r "v2", kvNat r "T" with
+    | some A, some C, some G, some H, some x0s, some _, some v2, some T =>
+      let n := A.length
+      let m := ncols C
+      let reps := x0s.length
+      let l := match H with | some H => ncols H | none => 0
+      match (if T == 0 then some (List.replicate reps []) else kvRatMat r "ws") with
+      | some ws =>
+        if ssOk A C G H && x0s.all (fun x => x.length == n) && ws.length == reps &&
+            ws.all (fun w => w.length == m * T) && v2.length == l * reps && reps ≥ 1 then
+          let draws := (x0s.zip ws).map fun (x0, w) =>
+            (colOf x0, (M.mk m T ((chunk T m w).map List.toArray).toArray : M Rat))
+          let V2 : M Rat := M.mk l reps ((chunk reps l v2).map List.toArray).toArray
+          let o := replicate (matOf A) (matOf C) (matOf G) (H.map matOf) draws V2 T
+          s!"ok x={showE o.1} y={showE o.2}"
+        else "bad-op"
+      | none => "bad-op"
+    | _, _, _, _, _, _, _, _ => "bad-op"
+  | "moments" :: r =>
+    match kvRatMat r "A", kvRatMat r "C", kvRatMat r "G", optH r, kvRats r "mu0", kvRatMat r "S0", kvNat r "k" with
+    | some A, some C, some G, some H, some mu0, some S0, some k =>
+      let n := A.length
+      if ssOk A C G H && mu0.length == n && dims S0 n n && k ≤ 64 then
+        let ms := momentSeq (matOf A) (matOf C) (matOf G) (H.map matOf) (colOf mu0) (matOf S0) k
+        "ok " ++ " ".intercalate (ms.zipIdx.map fun (m, t) =>
+          s!"mx{t}={showE m.mux} my{t}={showE m.muy} Sx{t}={showE m.sigx} Sy{t}={showE m.sigy}")
+      else "bad-op"
+    | _, _, _, _, _, _, _ => "bad-op"
+  | "impulse" :: r =>
+    match kvRatMat r "A", kvRatMat r "C", kvRatMat r "G", kvInt r "j" with
+    | some A, some C, some G, some j =>
+      if ssOk A C G none && j ≤ 64 then
+        let o := impulseResponse (matOf A) (matOf C) (matOf G) j.toNat
+        s!"ok {showMats "xc" showE o.1} {showMats "yc" showE o.2}"
+      else "bad-op"
+    | _, _, _, _ => "bad-op"
+  | "geosum" :: r =>
+    match kvRatMat r "A", kvRatMat r "G", kvRat r "beta", kvRats r "x" with
+    | some A, some G, some beta, some x =>
+      let n := A.length
+      if rect A && dims A n n && rect G && ncols G == n && x.length == n then
+        match geometricSums solve (matOf A) (matOf G) beta (colOf x) with
+        | some (Sx, Sy) => s!"ok Sx={showA Sx} Sy={showA Sy}"
+        | none => "ERR:LinAlgError"
+      else "bad-op"
+    | _, _, _, _ => "bad-op"
+  | "partition" :: r =>
+    match kvRatMat r "A", kvRatMat r "C" with
+    | some A, some C =>
+      let n := A.length
+      if rect A && dims A n n && rect C && C.length == n then
+        let p := partition (matOf A) (matOf C)
+        s!"ok nc={p.numConst} idx={showList toString p.idx} P={showE p.P} A21={showE p.A21} A22={showE p.A22} C2={showE p.C2}"
+      else "bad-op"
+    | _, _ => "bad-op"
+  | "statdist" :: r =>
+    match kvRatMat r "A", kvRatMat r "C", kvRatMat r "G", optH r, kvRats r "mu0" with
+    | some A, some C, some G, some H, some mu0 =>
+      let n := A.length
+      if ssOk A C G H && mu0.length == n then
+        match stationaryDist solve lyapExact (matOf A) (matOf C) (matOf G) (H.map matOf) (colOf mu0) with
+        | .ok mux muy sx sy syx =>
+          s!"ok mx={showA mux} my={showA muy} Sx={showA sx} Sy={showA sy} Syx={showA syx}"
+        | .linalg => "ERR:LinAlgError"
+      else "bad-op"
+    | _, _, _, _, _ => "bad-op"
+  | _ => "bad-op"
 
 end QE.C12
